@@ -419,8 +419,11 @@ func exploreOrders(base *DagCase, visit func(c *DagCase, r *Result) error) (int,
 	}
 }
 
-func exhaustive(t *testing.T, p *dprop, n int, outcomes []string, shard, shards int) {
-	st := evid.New(p.ID, fmt.Sprintf("exhaustive-n%d", n), fmt.Sprintf("exhaustive small scope: every labelled acyclic graph with %d tasks x every assignment of outcomes %v x modes {parallel, SetMaxParallel(1), SetMaxParallel(2), serial} x EVERY completion order (stateless depth-first search over the driver's choice tree, re-executing from scratch); non-trivial as in the random check", n, outcomes))
+func exhaustive(t *testing.T, p *dprop, n int, outcomes []string, shard, shards int, cancels ...int) {
+	if len(cancels) == 0 {
+		cancels = []int{-1}
+	}
+	st := evid.New(p.ID, fmt.Sprintf("exhaustive-n%d", n), fmt.Sprintf("exhaustive small scope: every labelled acyclic graph with %d tasks x every assignment of outcomes %v (err-ok = fail then succeed under one retry, err-err = retry exhausted) x cancel points %v (-1 = never; k = cancel() after the k-th release) x modes {parallel, SetMaxParallel(1), SetMaxParallel(2), serial} x EVERY completion order (stateless depth-first search over the driver's choice tree, re-executing from scratch); non-trivial as in the random check", n, outcomes, cancels))
 	st.Exhaustive = shards == 1
 	defer st.Write()
 	dags := allDags(n)
@@ -450,31 +453,44 @@ func exhaustive(t *testing.T, p *dprop, n int, outcomes []string, shard, shards 
 				c.Outcomes = make([][]string, n)
 				x := oa
 				for i := 0; i < n; i++ {
-					c.Outcomes[i] = []string{outcomes[x%len(outcomes)]}
+					oc := outcomes[x%len(outcomes)]
 					x /= len(outcomes)
+					switch oc {
+					case "err-ok": // fail-then-succeed under one retry
+						c.Script = append(c.Script, Call{Op: "retries", T: i, R: 1})
+						c.Outcomes[i] = []string{"err", "ok"}
+					case "err-err": // retry exhausted
+						c.Script = append(c.Script, Call{Op: "retries", T: i, R: 1})
+						c.Outcomes[i] = []string{"err", "err"}
+					default:
+						c.Outcomes[i] = []string{oc}
+					}
 				}
-				_, err := exploreOrders(c, func(cc *DagCase, r *Result) error {
-					st.Eval()
-					if p.NT(cc, r) {
-						var fp strings.Builder
-						fmt.Fprint(&fp, di, oa, md)
-						for _, e := range r.Hist {
-							if e.Kind == "enter" || e.Kind == "finish" {
-								fmt.Fprintf(&fp, "%s%d%s,", e.Kind[:1], e.Task, e.Result)
+				for _, cancelAfter := range cancels {
+					c.CancelAfter = cancelAfter
+					_, err := exploreOrders(c, func(cc *DagCase, r *Result) error {
+						st.Eval()
+						if p.NT(cc, r) {
+							var fp strings.Builder
+							fmt.Fprint(&fp, di, oa, md)
+							for _, e := range r.Hist {
+								if e.Kind == "enter" || e.Kind == "finish" {
+									fmt.Fprintf(&fp, "%s%d%s,", e.Kind[:1], e.Task, e.Result)
+								}
+							}
+							if st.NT(fp.String()) {
+								st.Sample(summarize(cc, r))
 							}
 						}
-						if st.NT(fp.String()) {
-							st.Sample(summarize(cc, r))
+						if v := r.Has(p.Tag); v != nil {
+							path := saveFail(p.ID, p.Sub, cc, v.Msg)
+							return fmt.Errorf("%s (case file %s)", v.Msg, path)
 						}
+						return nil
+					})
+					if err != nil {
+						t.Fatalf("%s exhaustive n=%d violated: %v", p.ID, n, err)
 					}
-					if v := r.Has(p.Tag); v != nil {
-						path := saveFail(p.ID, p.Sub, cc, v.Msg)
-						return fmt.Errorf("%s (case file %s)", v.Msg, path)
-					}
-					return nil
-				})
-				if err != nil {
-					t.Fatalf("%s exhaustive n=%d violated: %v", p.ID, n, err)
 				}
 			}
 		}
@@ -499,7 +515,7 @@ func TestC14_exhaustive3(t *testing.T) {
 }
 func TestC13_exhaustive4(t *testing.T) {
 	sh, n := shardEnv()
-	exhaustive(t, propC13, 4, []string{"ok", "err"}, sh, n)
+	exhaustive(t, propC13, 4, []string{"ok", "err", "err-ok"}, sh, n)
 }
 func TestC14_exhaustive4(t *testing.T) {
 	sh, n := shardEnv()
